@@ -317,7 +317,7 @@ PROPS["C16"] = {
             "Scenarios: (cell) one host-built `mut int` shared by all threads, each applying one of the 12 assignment operators N times through the same parsed function and returning the values its assignments yielded - operands are chosen so that updates commute and "
             "each update is a bijection (+= 1, -= 1, *= 3, ^= unique bit, |= own bit, &= clear own bit, <<= 1, >>= 1, /= 3 on 3^39, **= 3 on odd values, %= m, = unique value), so atomicity <=> final content is the closed form and the multiset of yielded values is the sequential chain; "
             "(isolated) 15 functions using every lazily initialised helper (map, filter, iterate, type filter, reducers, modules, stdlib) first touched concurrently, results compared with the sequential run; (code) one parsed Code executed from all threads; "
-            "(readers) half the threads print a cell that contains itself (through an array, a tuple, a struct or another cell) and a cell nested in a cell while the others assign; (failing) threads increment / apply failing compound assignments (/= 0, %= 0, <<= 64, >>= -1, **= -1) / read one cell: every failure reports its documented error and leaves the cell as it was; the isolated set also holds functions whose run creates state (default cell of an exhausted `? mut int`, closure counters, iterator positions). A run that makes no progress is inspected with `gdb thread apply all bt`: threads parked in RwLock acquisition = deadlock (violation), otherwise inconclusive. "
+            "(readers) half the threads print a cell that contains itself (through an array, a tuple, a struct or another cell) and a cell nested in a cell while the others assign; (failing) threads increment / apply failing compound assignments (/= 0, %= 0, <<= 64, >>= -1, **= -1) / read one cell: every failure reports its documented error and leaves the cell as it was; (iterator) one `a~` value pulled from all threads: afterwards its cursor stands at the number of pulls; (printing) threads print values that contain a cell while others update it: every text shows a content the cell held; the isolated set also holds functions whose run creates state (default cell of an exhausted `? mut int`, closure counters, iterator positions). A run that makes no progress is inspected with `gdb thread apply all bt`: threads parked in RwLock acquisition = deadlock (violation), otherwise inconclusive. "
             "Plus Miri (cargo +nightly miri run, several schedule seeds) on miniature versions of the same scenarios: data races, deadlocks, UB in the dependency code actually executed. distinct_nontrivial = distinct (scenario, threads, size, yield, run) executions.",
     "assumptions": COMMON_ASSUME + ["schedules explored are those the OS scheduler, the injected yields and Miri's seeds produce - a sample, not all interleavings",
                                     "a stall is decided by the thread dump (all blocked in lock acquisition), never by elapsed time alone"],
